@@ -1,4 +1,5 @@
 //! scverif — runtime monitors for smartcore (see /verif/DESIGN.md)
+pub mod apipaths;
 pub mod builders;
 pub mod gen;
 pub mod matprog;
